@@ -93,6 +93,11 @@ pub fn curated(ctx: &Ctx) -> Vec<BuildSpec> {
             v.push(s);
         }
     }
+    // scriptlet with an empty interpreter list
+    let mut s = one_file();
+    s.name = "empty-prog".into();
+    s.scripts.insert("pre_install", ScriptSpec { script: "true".into(), flags: None, prog: Some(vec![]) });
+    v.push(s);
     // without a source date (build time = now)
     let mut s = one_file();
     s.source_date = None;
@@ -113,16 +118,19 @@ pub fn curated(ctx: &Ctx) -> Vec<BuildSpec> {
 pub struct Item {
     pub desc: Value,
     pub bytes: Vec<u8>,
+    pub spec: BuildSpec,
+    /// true if sign / clear operations were applied after the build
+    pub has_history: bool,
 }
 
 /// Built package plus the states reached by short sign/clear/re-parse histories.
 pub fn with_histories(env: &Env, spec: &BuildSpec, deep: bool) -> Result<Vec<Item>, String> {
     let (pkg, bytes) = spec.build_bytes(env)?;
-    let mut out = vec![Item { desc: json!({"spec": spec.to_json(), "history": []}), bytes }];
+    let mut out = vec![Item { desc: json!({"spec": spec.to_json(), "history": []}), bytes, spec: spec.clone(), has_history: false }];
     let mut push = |hist: Vec<&str>, p: &rpm::Package| {
         let mut o = vec![];
         if p.write(&mut o).is_ok() {
-            out.push(Item { desc: json!({"spec": spec.to_json(), "history": hist}), bytes: o });
+            out.push(Item { desc: json!({"spec": spec.to_json(), "history": hist}), bytes: o, spec: spec.clone(), has_history: true });
         }
     };
     let mut c = pkg.clone();
@@ -142,13 +150,34 @@ pub fn with_histories(env: &Env, spec: &BuildSpec, deep: bool) -> Result<Vec<Ite
 
 pub type ItemOracle = dyn Fn(&str, &Item, u64, &mut Acc) + Sync;
 
-/// Apply `oracle` to every corpus item.
+/// Apply `oracle` to every corpus item: curated configurations with sign/clear histories,
+/// the C06 setter enumeration (1 call in the quick tier, ≤ 2 in the thorough tier) and the
+/// C07 payload enumeration.
 pub fn run_corpus(ctx: &Ctx, sub: &str, rule_suffix: &str, oracle: &ItemOracle) -> SubReport {
     let env = Env::new(&ctx.repo, &format!("corpus-{}", ctx.property));
     let specs = curated(ctx);
-    let acc = crate::common::merge(par_fold(specs.len() as u64, Acc::new, |i, acc| {
-        let spec = &specs[i as usize];
-        let r = catch(|| with_histories(&env, spec, i % 4 == 2 || spec.sign.is_some()));
+    let menu = crate::c06::menu();
+    let k06 = if ctx.thorough() { 2 } else { 1 };
+    let n06 = crate::c06::domain_size(menu.len() as u64, k06);
+    let s07 = crate::c07::specs(false);
+    let n = specs.len() as u64 + n06 + s07.len() as u64;
+    let acc = crate::common::merge(par_fold(n, Acc::new, |i, acc| {
+        let (spec, deep): (BuildSpec, Option<bool>) = if (i as usize) < specs.len() {
+            let sp = specs[i as usize].clone();
+            let deep = i % 4 == 2 || sp.sign.is_some();
+            (sp, Some(deep))
+        } else if i < specs.len() as u64 + n06 {
+            match crate::c06::config(&menu, i - specs.len() as u64, k06) {
+                Some((sp, _)) => (sp, None),
+                None => return,
+            }
+        } else {
+            (s07[(i - specs.len() as u64 - n06) as usize].clone(), None)
+        };
+        let r = catch(|| match deep {
+            Some(d) => with_histories(&env, &spec, d),
+            None => spec.build_bytes(&env).map(|(_, bytes)| vec![Item { desc: json!({"spec": spec.to_json(), "history": []}), bytes, spec: spec.clone(), has_history: false }]),
+        });
         match r {
             Err(p) => acc.viol(crate::common::panic_violation(sub, &p, json!({"spec": spec.to_json()})).rank(i)),
             Ok(Err(e)) => {
@@ -166,7 +195,10 @@ pub fn run_corpus(ctx: &Ctx, sub: &str, rule_suffix: &str, oracle: &ItemOracle) 
     SubReport::new(
         sub,
         "A",
-        &format!("corpus: {} builder configurations (empty / one file / rich / boundary sizes × compression types and levels, signed with each key, no source date, forced large-file layout) each also after clear / sign / re-sign / clear; {}", specs.len(), rule_suffix),
+        &format!(
+            "corpus of emitted packages: {} curated configurations (empty / one file / rich / boundary sizes × compression types and levels, signed with each key, no source date, forced large-file layout) each also after clear / sign / re-sign / clear; the C06 enumeration of ≤ {} setter call(s) ({} configurations); the C07 payload enumeration ({} configurations); {}",
+            specs.len(), k06, n06, s07.len(), rule_suffix
+        ),
         acc,
     )
 }
